@@ -985,6 +985,11 @@ func (self *Analyzer) callExpression(node pAst.CallExpression) ast.AnalyzedCallE
 	// If this is a thread spawn, create a thread handle as the result
 	// TODO: migrate this to the `core-lib` and reference the type from here
 	if node.IsSpawn {
+		// the base could not be called (unknown identifier, not a function): there is no result type
+		if thisExpressionResultsIn == nil {
+			thisExpressionResultsIn = ast.NewUnknownType()
+		}
+
 		thisExpressionResultsIn = ast.NewObjectType([]ast.ObjectTypeField{
 			ast.NewObjectTypeField(
 				pAst.NewSpannedIdent("join", node.Span()), ast.NewFunctionType(
